@@ -30,9 +30,10 @@ func zzC08World() (g *zzGen, permuted []parser.K8sObject) {
 	p, e := zzPortVar("p"), zzPortVar("e")
 	vf_Assume(p < e)
 	q := zzPortVar("q")
-	if vf_Tier() == 0 {
-		// quick: one relative order of the symbolic ports (the schedule, not the data, is what this check explores)
-		vf_Assume(vf_And(e < q, q < g.pod("ns1", "a").Ports[0].ContainerPort))
+	{
+		// one relative order of the symbolic ports (the schedule, not the data, is what this check explores)
+		hp := g.pod("ns1", "a").Ports[0].ContainerPort
+		vf_Assume(vf_And(p > 1, p+1 < e, e+1 < q, q+1 < hp, hp < 8000))
 	}
 	peersA := []netv1.NetworkPolicyPeer{
 		{PodSelector: zzSel("app", "b")},
@@ -79,7 +80,40 @@ func zzC08World() (g *zzGen, permuted []parser.K8sObject) {
 	}
 	base := append([]parser.K8sObject{}, g.Objs...)
 	var adm []parser.K8sObject
-	if vf_Choose("adm", 2) == 1 {
+	extra := vf_Choose("extra", 4) // 0 nothing more, 1 admin policies, 2 services + ingress objects, 3 two more policies on app=a
+	switch extra {
+	case 2:
+		// Services and Ingress objects in ns1 and ns2, and an Ingress in a namespace without any Service
+		mkSvc := func(ns, name string, port int32) parser.K8sObject {
+			return parser.K8sObject{Kind: parser.Service, Service: &corev1.Service{
+				TypeMeta: metav1.TypeMeta{Kind: "Service", APIVersion: "v1"}, ObjectMeta: metav1.ObjectMeta{Name: name, Namespace: ns},
+				Spec: corev1.ServiceSpec{Selector: map[string]string{"app": "w"}, Ports: []corev1.ServicePort{{Name: "web", Port: port}}}}}
+		}
+		mkIng := func(ns, name, svc string, port int32) parser.K8sObject {
+			return parser.K8sObject{Kind: parser.Ingress, Ingress: &netv1.Ingress{
+				TypeMeta: metav1.TypeMeta{Kind: "Ingress", APIVersion: "networking.k8s.io/v1"}, ObjectMeta: metav1.ObjectMeta{Name: name, Namespace: ns},
+				Spec: netv1.IngressSpec{DefaultBackend: &netv1.IngressBackend{Service: &netv1.IngressServiceBackend{Name: svc, Port: netv1.ServiceBackendPort{Number: port}}}}}}
+		}
+		wports := []corev1.ContainerPort{{Name: "web", ContainerPort: 8080, Protocol: corev1.ProtocolTCP}}
+		adm = []parser.K8sObject{
+			mkIng("ns0", "ing0", "nosvc", 80),
+			zzDeployObj("ns1", "w1", map[string]string{"app": "w"}, wports), mkSvc("ns1", "svc1", 8080), mkIng("ns1", "ing1", "svc1", 8080),
+			zzDeployObj("ns2", "w2", map[string]string{"app": "w"}, wports), mkSvc("ns2", "svc2", 8080), mkIng("ns2", "ing2", "svc2", 8080),
+			mkIng("ns9", "ing9", "nosvc", 80),
+		}
+	case 3:
+		// two more policies selecting app=a in ns1: one opens everything from any address, the other a port from the whole cluster
+		np3 := zzNetpolObj("ns1", "np3", netv1.NetworkPolicySpec{PodSelector: metav1.LabelSelector{MatchLabels: map[string]string{"app": "a"}},
+			Ingress:     []netv1.NetworkPolicyIngressRule{{From: []netv1.NetworkPolicyPeer{{IPBlock: &netv1.IPBlock{CIDR: "0.0.0.0/0"}}}}},
+			Egress:      []netv1.NetworkPolicyEgressRule{{To: []netv1.NetworkPolicyPeer{{IPBlock: &netv1.IPBlock{CIDR: "0.0.0.0/0"}}}}},
+			PolicyTypes: []netv1.PolicyType{netv1.PolicyTypeIngress, netv1.PolicyTypeEgress}})
+		np4 := zzNetpolObj("ns1", "np4", netv1.NetworkPolicySpec{PodSelector: metav1.LabelSelector{},
+			Ingress:     []netv1.NetworkPolicyIngressRule{{From: []netv1.NetworkPolicyPeer{{NamespaceSelector: &metav1.LabelSelector{}}}, Ports: []netv1.NetworkPolicyPort{zzPortNum(corev1.ProtocolTCP, q)}}},
+			Egress:      []netv1.NetworkPolicyEgressRule{{To: []netv1.NetworkPolicyPeer{{NamespaceSelector: &metav1.LabelSelector{}}}, Ports: []netv1.NetworkPolicyPort{zzPortNum(corev1.ProtocolTCP, q)}}},
+			PolicyTypes: []netv1.PolicyType{netv1.PolicyTypeIngress, netv1.PolicyTypeEgress}})
+		adm = []parser.K8sObject{np3, np4}
+	}
+	if extra == 1 {
 		// two ANPs with distinct priorities on the same subject (order of evaluation is by priority, not by position)
 		r := int32(8080)
 		mkANP := func(name string, prio int32, act apisv1a.AdminNetworkPolicyRuleAction) parser.K8sObject {
@@ -104,7 +138,8 @@ func zzC08World() (g *zzGen, permuted []parser.K8sObject) {
 	g.Objs = ref
 	// the permuted spelling of the same resources
 	var other []parser.K8sObject
-	switch vf_Choose("perm", 4) {
+	perm := vf_Choose("perm", 2+2*vf_Tier()) + 1 - vf_Tier() // quick: 1, 2; thorough: 0..3
+	switch perm {
 	case 0: // same documents, same order: only the map schedule differs
 		other = ref
 	case 1: // documents reversed
